@@ -79,6 +79,10 @@ Record labobs := mk_labobs {
   b_data_ok : bool;       (* every answer record (and negative proof SOA) is in the generated ground truth for that name/type *)
   b_chain_signed : bool } (* every RRset of the reply belongs to a zone signed up to the anchor *).
 
+(* what the client of an alias question got from edns + cache: rcode, AD, owners of the answer records (entry numbers), and
+   whether the question fell through to the next handler *)
+Record ochase := mk_ochase { oc_rcode : N; oc_ad : bool; oc_owners : list N; oc_miss : bool }.
+
 Inductive case :=
   (* dnssec.VerifyDSWithWork *)
 | CaseDS (keys : list key) (dsset : list rr) (unsup : bool) (e : option err)
@@ -109,7 +113,11 @@ Inductive case :=
 | CaseClientAD (q : creq) (resp_ad : bool) (observed : bool)
 | CaseCacheAD (q : creq) (stored_ad : bool) (observed : bool)
   (* an alias chain answered from several cache entries (one stored verdict per hop) through edns + cache *)
-| CaseChainAD (q : creq) (hops : list bool) (observed : bool).
+| CaseChainAD (q : creq) (hops : list bool) (observed : bool)
+  (* the same over an explicit store: entries with their own AD bit and alias links (straight, looping, re-spelled) *)
+| CaseChase (q : creq) (st : cstore) (qname : N) (o : ochase)
+  (* a resolver verdict written through the cache's ResponseWriter: what each CD partition holds afterwards *)
+| CaseFiled (verdict_ad req_cd : bool) (part0 part1 : option bool).
 
 Definition opt_err_eqb (a b : option err) : bool :=
   match a, b with
@@ -169,6 +177,22 @@ Definition check_case (c : case) : bool :=
   | CaseClientAD q ad o => Bool.eqb (client_ad q ad) o
   | CaseCacheAD q ad o => Bool.eqb (cache_ad q ad) o
   | CaseChainAD q hops o => Bool.eqb (client_ad_cached q (forallb (fun b => b) hops)) o
+  | CaseChase q st qn o =>
+      let '(path, complete) := walk st 16 qn [] in
+      negb (oc_miss o) &&
+      if complete
+      then (oc_rcode o =? 0) && nlist_eqb (oc_owners o) path && Bool.eqb (oc_ad o) (served_ad q st path)
+      else (* an alias loop: refused, or the records gathered before the revisit — never more than the path holds *)
+           ((oc_rcode o =? 2) && nlist_eqb (oc_owners o) [] && negb (oc_ad o)) ||
+           ((* an alias onto the question's own name, in whatever spelling, is refused outright (additionalAnswer's first
+               comparison, case-folded since a4faf69); a longer loop may hand back the records gathered before the revisit *)
+            negb (self_alias st qn) &&
+            (oc_rcode o =? 0) && match oc_owners o with [] => false | _ => true end && is_prefix (oc_owners o) path &&
+            Bool.eqb (oc_ad o) (served_ad q st (oc_owners o)))
+  | CaseFiled v cd p0 p1 =>
+      let '(m0, m1) := file_verdict v cd in
+      match m0, p0 with Some a, Some b => Bool.eqb a b | None, None => true | _, _ => false end &&
+      match m1, p1 with Some a, Some b => Bool.eqb a b | None, None => true | _, _ => false end
   end.
 
 (* ---- specification oracles ---- *)
@@ -313,4 +337,13 @@ Definition spec_case (c : case) : bool :=
   | CaseChainAD q hops o =>
       (* AD toward the client only if EVERY entry the reply was composed from was validated *)
       if o then forallb (fun b => b) hops && negb (q_cd q) && (q_do q || q_ad q) else true
+  | CaseChase q st _ o =>
+      (* AD toward the client only if EVERY entry a record of the reply came from was filed with AD, the client did not set
+         CD and asked with DO or AD — read off the reply, without walking the store *)
+      if oc_ad o then forallb (fun n => match cs_find st n with Some e => ce_ad e | None => false end) (oc_owners o) &&
+                      negb (q_cd q) && (q_do q || q_ad q) && (oc_rcode o =? 0)
+      else true
+  | CaseFiled v cd p0 p1 =>
+      (* a validating (CD=0) reader only ever meets a bit the resolver set for a CD=0 request *)
+      match p0 with Some a => negb cd && Bool.eqb a v | None => cd end
   end.
